@@ -17,8 +17,8 @@ META = {
                    "per-element tolerance - to sum n_i*W_i - q*m_e with W_i from an independently written reference table; "
                    "Substance.mass (repeated reads, data override) and mass_fractions are executed on symbolic counts/coefficients/masses "
                    "and proved equal to their definitions (z3 NRA); atomic_number lookups by CrossHair over a symbolic table index",
-    "bounds": {"quick": "all 118 elements at once, counts any non-negative reals, charge any real; mixtures of 2-3 substances",
-               "thorough": "same + mixtures of 4 substances"},
+    "bounds": {"quick": "all 118 elements at once, counts any non-negative reals, charge any real; mixtures of 2-3 substances (all forms) and of 9 and 16 substances (plain mapping, concrete distinct masses)",
+               "thorough": "same + mixtures of 4..20 substances"},
     "assumptions": [
         "reference table /verif/ref/atomic_weights.json (written independently; tolerance 5e-4 relative, 3% for Z>=104 where the quoted "
         "mass number differs between IUPAC tables; electron mass 1e-3 relative)",
